@@ -13,7 +13,7 @@ ID = 'C16'
 BUDGET = 2.0
 RULE = ('cases: for every rule of the current SQL_REGEX an alphabet of its literals and character-class representatives (+ newline and a non-member) is extracted with '
         're._parser; candidates prefix + pump^n + suffix with pump enumerated over all strings of length <=3 over the rule alphabet (<=7 symbols), prefix in {empty, 4 '
-        'starters}, suffix in {empty, non-member}, total length ~60, and length ~2000 for pumps of length <=2; plus Hypothesis-drawn pumps of length <=6 over the union '
+        'starters}, suffix in {empty, non-member}, total length ~60, and length ~2000 for pumps of length <=2; leg loops: for every repetition in every rule the prefix that carries a match attempt to that loop (witness of the pattern before it) + pump^n over one representative per minterm of the one-character elements of the rule restricted to the loop body (Latin blocks and members of every Unicode category incl. non-ASCII digits/letters/spaces; classes accepted by several body elements first), pump length <=3, n ~60 and 3000; plus Hypothesis-drawn pumps of length <=6 over the union '
         'alphabet and G1 fragments at lengths 60 and 3000. Each candidate is tokenized by the whole lexer under a CPU-time alarm; oracle: CPU time <= %.0f s (exponential '
         'ambiguity makes length-60 pumps take hours). non-trivial: the targeted rule matches at least two pump copies somewhere in the candidate; distinct by candidate string' % BUDGET)
 ASSUMPTIONS = ['the property\'s universal clause (no input at all, no ambiguity in any rule) is beyond generated search; decided is: no candidate of the stated shapes exceeds the budget',
@@ -83,5 +83,10 @@ def drawn(draw):
     return {'rule': None, 'prefix': pre, 'pump': pump, 'reps': max(2, total // len(pump)), 'suffix': suf}
 
 
-LEGS = [Leg('enumerated', check=check, enumerate=_enum, cpu_limit=20),
+def _directed(tier):
+    return regexpump.directed(keywords.SQL_REGEX, tier)
+
+
+LEGS = [Leg('loops', check=check, enumerate=_directed, cpu_limit=20),
+        Leg('enumerated', check=check, enumerate=_enum, cpu_limit=20),
         Leg('drawn', check=check, strategy=lambda tier: drawn(), examples={'quick': 6000, 'thorough': 100000}, cpu_limit=20)]
